@@ -258,3 +258,87 @@ func verifHarness_C14_provider(one int, closeDone int) {
 	}
 	verifReach("C14/T3")
 }
+
+// recording net.PacketConn for the UDP broadcast endpoint
+type verifPacketConn struct {
+	events    []int // 0 ReadFrom, 1 SetWriteDeadline, 2 WriteTo, 3 SetReadDeadline / SetDeadline, 4 Close
+	deadlines []time.Time
+	dst       net.Addr
+	n         int
+	err       error
+	failSet   bool
+}
+
+func (c *verifPacketConn) ReadFrom(p []byte) (int, net.Addr, error) {
+	c.events = append(c.events, 0)
+	return c.n, nil, c.err
+}
+
+func (c *verifPacketConn) WriteTo(p []byte, addr net.Addr) (int, error) {
+	c.events = append(c.events, 2)
+	c.dst = addr
+	return c.n, c.err
+}
+func (c *verifPacketConn) Close() error        { c.events = append(c.events, 4); return nil }
+func (c *verifPacketConn) LocalAddr() net.Addr { return nil }
+func (c *verifPacketConn) SetDeadline(t time.Time) error {
+	c.events = append(c.events, 3)
+	return nil
+}
+
+func (c *verifPacketConn) SetReadDeadline(t time.Time) error {
+	c.events = append(c.events, 3)
+	return nil
+}
+
+func (c *verifPacketConn) SetWriteDeadline(t time.Time) error {
+	c.events = append(c.events, 1)
+	c.deadlines = append(c.deadlines, t)
+	if c.failSet {
+		return verifErrOpen
+	}
+	return nil
+}
+
+// T5 (UDP broadcast endpoint): the connection handed to the channel sends every write to the broadcast address under
+// a deadline armed for that call from the node's write timeout, reads without any deadline (silence is normal on a
+// broadcast link), reports the outcome of the underlying call unchanged, and the endpoint serves one channel at a time.
+// kind 0: Read, 1: Write, 2: Write with a failing SetWriteDeadline. errKind 0: no error, 1: an error.
+func verifHarness_C14_broadcast(kind int, errKind int) {
+	defer verifPatchClock()()
+	n := verifBareNode(V2, 1, 1)
+	wt := verifNondetI64()
+	verifAssume(wt >= 0 && wt < 1<<50)
+	n.WriteTimeout = time.Duration(wt)
+	cnt := verifNondetRange(0, 8)
+	var want error
+	if errKind == 1 {
+		want = verifErrOpen
+	}
+	pc := &verifPacketConn{n: cnt, err: want, failSet: kind == 2}
+	baddr := &net.UDPAddr{IP: net.IP{192, 168, 5, 255}, Port: 5600}
+	e := &endpointUDPBroadcast{node: n, pc: pc, broadcastAddr: baddr}
+	verifAssert(e.oneChannelAtAtime(), "C14/T5/one-channel-at-a-time")
+	_, conn, perr := e.provide()
+	verifAssert(perr == nil && conn != nil, "C14/T5/provides-a-connection")
+	buf := make([]byte, 8)
+	if kind == 0 {
+		got, err := conn.Read(buf)
+		verifAssert(len(pc.events) == 1 && pc.events[0] == 0, "C14/T5/read-without-deadline")
+		verifAssert(got == cnt && err == want, "C14/T5/read-outcome-unchanged")
+	} else {
+		got, err := conn.Write(buf)
+		now := verifClockLast()
+		verifAssert(verifClockReadings() == 1, "C14/T5/one-clock-reading-per-write")
+		if kind == 2 {
+			verifAssert(err == verifErrOpen && got == 0, "C14/T5/deadline-error-reported")
+			verifAssert(len(pc.events) == 1 && pc.events[0] == 1, "C14/T5/deadline-error-short-circuits-the-write")
+		} else {
+			verifAssert(len(pc.events) == 2 && pc.events[0] == 1 && pc.events[1] == 2, "C14/T5/write-preceded-by-its-deadline")
+			verifAssert(pc.deadlines[0].Equal(verifClockAt(now).Add(time.Duration(wt))), "C14/T5/write-deadline-is-now-plus-write-timeout")
+			verifAssert(pc.dst == net.Addr(baddr), "C14/T5/written-to-the-broadcast-address")
+			verifAssert(got == cnt && err == want, "C14/T5/write-outcome-unchanged")
+		}
+	}
+	verifReach("C14/T5")
+}
